@@ -183,32 +183,32 @@ theorem Inv0.entry_nd {m : Mem} (hI : Inv0 m) : ∀ t cs, alookup m.tctx t = som
   simpa [getCtxs, getC, h] using this
 
 theorem add_absent {m : Mem} (hI : Inv m) {t : Triple} (c : Nat) (ht : t ∉ m.spo) :
-    Inv (m.add t c) ∧ ∀ t' c', InG (m.add t c) t' c' ↔ (InG m t' c' ∨ (t' = t ∧ c' = c)) := by
-  have hspo : (m.add t c).spo = m.spo ++ [t] := by simp [Mem.add, ht, addTripleContext]
-  have hpos : (m.add t c).pos = sinsert m.pos t := by simp [Mem.add, ht]
-  have hosp : (m.add t c).osp = sinsert m.osp t := by simp [Mem.add, ht]
-  have hdf : (m.add t c).dflt = setDflt m.dflt [some c, none] := by
-    simp [Mem.add, ht, addTripleContext, newTripleCtx]
-  have htc : (m.add t c).tctx = compress m.tctx (setDflt m.dflt [some c, none]) t [some c, none] := by
-    simp [Mem.add, ht, addTripleContext, newTripleCtx]
-  have hcT : (m.add t c).ctxT = ctxTadd (ctxTadd m.ctxT none t) (some c) t := by
-    simp [Mem.add, ht, addTripleContext]
-  have herr : (m.add t c).err = false := by
-    simp [Mem.add, ht, addTripleContext, hI.err, hI.ctxT_none]
-  have hmemspo : ∀ x, x ∈ (m.add t c).spo ↔ (x ∈ m.spo ∨ x = t) := by
+    Inv (m.addCore t c) ∧ ∀ t' c', InG (m.addCore t c) t' c' ↔ (InG m t' c' ∨ (t' = t ∧ c' = c)) := by
+  have hspo : (m.addCore t c).spo = m.spo ++ [t] := by simp [Mem.addCore, ht, addTripleContext]
+  have hpos : (m.addCore t c).pos = sinsert m.pos t := by simp [Mem.addCore, ht]
+  have hosp : (m.addCore t c).osp = sinsert m.osp t := by simp [Mem.addCore, ht]
+  have hdf : (m.addCore t c).dflt = setDflt m.dflt [some c, none] := by
+    simp [Mem.addCore, ht, addTripleContext, newTripleCtx]
+  have htc : (m.addCore t c).tctx = compress m.tctx (setDflt m.dflt [some c, none]) t [some c, none] := by
+    simp [Mem.addCore, ht, addTripleContext, newTripleCtx]
+  have hcT : (m.addCore t c).ctxT = ctxTadd (ctxTadd m.ctxT none t) (some c) t := by
+    simp [Mem.addCore, ht, addTripleContext]
+  have herr : (m.addCore t c).err = false := by
+    simp [Mem.addCore, ht, addTripleContext, hI.err, hI.ctxT_none]
+  have hmemspo : ∀ x, x ∈ (m.addCore t c).spo ↔ (x ∈ m.spo ∨ x = t) := by
     intro x; rw [hspo]; simp
-  have hself : ∀ x, x ∈ getCtxs (m.add t c) t ↔ (x = some c ∨ x = none) := by
+  have hself : ∀ x, x ∈ getCtxs (m.addCore t c) t ↔ (x = some c ∨ x = none) := by
     intro x
     simp only [getCtxs, hdf, htc]
     rw [mem_getC_compress_self]; simp
-  have hpres : ∀ t', t' ∈ m.spo → getCtxs (m.add t c) t' = getCtxs m t' := by
+  have hpres : ∀ t', t' ∈ m.spo → getCtxs (m.addCore t c) t' = getCtxs m t' := by
     intro t' h
     have e : t' ≠ t := fun e => ht (e ▸ h)
     obtain ⟨d0, hd0⟩ := Option.isSome_iff_exists.mp (hI.dflt_some t' h)
     simp only [getCtxs, hdf, htc]
     rw [getC_compress_other _ _ _ _ _ e]
     simp [setDflt, hd0]
-  have hdok : ∀ d, (m.add t c).dflt = some d → none ∈ d ∧ d.Nodup := by
+  have hdok : ∀ d, (m.addCore t c).dflt = some d → none ∈ d ∧ d.Nodup := by
     intro d h
     rw [hdf] at h
     cases hm : m.dflt with
@@ -218,7 +218,7 @@ theorem add_absent {m : Mem} (hI : Inv m) {t : Triple} (c : Nat) (ht : t ∉ m.s
     | some d0 =>
       simp only [setDflt, hm, Option.some.injEq] at h
       subst h; exact hI.dflt_ok _ hm
-  have hT : ∀ k x, x ∈ ctxTget (m.add t c) k ↔
+  have hT : ∀ k x, x ∈ ctxTget (m.addCore t c) k ↔
       (x ∈ ctxTget m k ∨ ((k = none ∨ k = some c) ∧ x = t)) := by
     intro k x
     simp only [ctxTget, hcT, mem_getT_ctxTadd]
@@ -305,12 +305,23 @@ theorem add_absent {m : Mem} (hI : Inv m) {t : Triple} (c : Nat) (ht : t ∉ m.s
       · subst h1; subst h2
         exact ⟨Or.inr rfl, (hself _).2 (Or.inl rfl)⟩
 
-/-- `Memory.add` keeps the invariant and adds exactly the pair (triple, graph) -/
-theorem add_spec {m : Mem} (hI : Inv m) (t : Triple) (c : Nat) :
-    Inv (m.add t c) ∧ ∀ t' c', InG (m.add t c) t' c' ↔ (InG m t' c' ∨ (t' = t ∧ c' = c)) := by
+/-- the index/context part of `Memory.add` keeps the invariant and adds exactly the pair (triple, graph) -/
+theorem addCore_spec {m : Mem} (hI : Inv m) (t : Triple) (c : Nat) :
+    Inv (m.addCore t c) ∧ ∀ t' c', InG (m.addCore t c) t' c' ↔ (InG m t' c' ∨ (t' = t ∧ c' = c)) := by
   by_cases ht : t ∈ m.spo
-  · have : m.add t c = addTripleContext m t true c := by simp [Mem.add, ht]
+  · have : m.addCore t c = addTripleContext m t true c := by simp [Mem.addCore, ht]
     rw [this]; exact add_present hI c ht
   · exact add_absent hI c ht
+
+theorem inv_register {m : Mem} (hI : Inv m) (c : Nat) : Inv (m.register c) :=
+  { err := hI.err, nd_spo := hI.nd_spo, nd_pos := hI.nd_pos, nd_osp := hI.nd_osp, pos_iff := hI.pos_iff,
+    osp_iff := hI.osp_iff, dflt_some := hI.dflt_some, dflt_ok := hI.dflt_ok, tctx_in := hI.tctx_in,
+    ctxs_nd := hI.ctxs_nd, ctxT_nd := hI.ctxT_nd, ctxT_none := hI.ctxT_none, ctxT_iff := hI.ctxT_iff,
+    ctx_ok := hI.ctx_ok }
+
+/-- `Memory.add` keeps the invariant and adds exactly the pair (triple, graph) -/
+theorem add_spec {m : Mem} (hI : Inv m) (t : Triple) (c : Nat) :
+    Inv (m.add t c) ∧ ∀ t' c', InG (m.add t c) t' c' ↔ (InG m t' c' ∨ (t' = t ∧ c' = c)) :=
+  addCore_spec (inv_register hI c) t c
 
 end RV.C01
